@@ -28,6 +28,22 @@ RULE = ("Triangulated disks built by the harness: Delaunay triangulations of 4-4
         "object in place; the flat_mesh of the first worker is in part of the cases read only after a second worker ran on the same "
         "mesh (other container); 2.5% of the disks have element counts of exactly 255/256/257 (vertices, faces, interior vertices, "
         "border length); custom polygons include one within 1e-5 of the unit circle. "
+        "CALL SPELLING (drawn independently for each configuration, also in non_disk_rejected): the documented signature "
+        "TutteEmbedding(mesh, boundary_mode='circle', use_cotan=False, verbose=False, save_on_corners=True, custom_boundary=None) is called with "
+        "all options by keyword / boundary_mode positional / boundary_mode and use_cotan positional / boundary_mode, use_cotan and verbose "
+        "positional (documented order) / only the non-default options / everything incl. mesh= by keyword; the flags use_cotan, verbose, "
+        "save_on_corners are bool, numpy.bool_ or 0/1; for the circle and square targets custom_boundary=None (the documented default) is "
+        "passed explicitly in 1/3 of the calls; the worker is run by .run() or by calling it (worker() must return the worker). The "
+        "constructor must accept every spelling and all oracles apply to the options as the caller spelled them. "
+        "NEEDLE TRIANGLES (src=thin, ~12% of the disks): planar Delaunay triangulations (non-negative cotangent weights) of 8-80 jittered-grid points plus 1-3 points "
+        "at distance 3e-4 .. 3e-6 of an existing one (interior or border), hull slivers peeled off, optionally moved by a rigid motion of space: "
+        "corner angles down to 1e-6 rad with every corner <= 170 deg; cotangent weights ARE requested on them. "
+        "CACHED ATTRIBUTES: before the first run (1/2 of the cases, the same step on both fresh meshes) and before the second run, one of "
+        "corner_angles / cotangent / corner_angles then cotangent / face_area / angle_defects / cotan_weights / vertex_normals / "
+        "SurfaceConnectionVertices / a vertex frame field (<= 60 faces) / a cotangent laplacian is evaluated on the mesh object, which leaves persistent "
+        "attributes ('angles', 'cotan', 'area', 'normals', ...) on it; the geometry is never changed afterwards, so every cached value is "
+        "valid and the statement must hold unchanged (labels *:cotan-with-cached:<attributes>:min-corner-angle:<class> count how often cotangent "
+        "weights meet which cached corner attribute at which needle sharpness). "
         "Sub-check large_disks: jittered 34..44 x 34..44 grids with random diagonals and Delaunay triangulations of 1200-1900 "
         "jittered-grid points (> 1000 interior vertices, optional height field), same oracles and tolerances. "
         "Sub-check non_disk_rejected: triangulated spheres, tori, annuli, multi-loop and multi-component surfaces, connected sums "
@@ -38,8 +54,12 @@ RULE = ("Triangulated disks built by the harness: Delaunay triangulations of 4-4
 ASSUMPTIONS = ["input disks are oriented manifold triangulations (single border loop, one component, chi = 1) without unreferenced vertices "
                "(a disk plus unreferenced vertices has V - E + F != 1 by the library's documented definition and belongs to the rejection gate); "
                "default library configuration (sort_neighborhoods = True)",
-               "cotangent weights are only requested on meshes with min angle >= 5 deg and max angle <= 170 deg (otherwise the case is "
-               "run with uniform weights and without the cotangent / angle caching pre-step); the orientation oracle is strict only when every interior-edge weight (cot a + cot b)/2 is "
+               "cotangent weights are only requested on meshes with min angle >= 5 deg and max angle <= 170 deg, or - needle class, close pairs of "
+               "points in a planar Delaunay triangulation - min angle >= 1e-6 rad and max angle <= 170 deg (otherwise the case is "
+               "run with uniform weights and without any attribute-caching pre-step). The bound on the largest angle keeps every corner cotangent "
+               ">= -5.7, so that no edge weight is a difference of two huge numbers; a needle corner of angle a contributes a weight ~1/a whose "
+               "relative error (input rounding, the library's angle -> tangent route, the harness's cross product) is <= ~1e-16/a <= 1e-10, and "
+               "the interior oracle measures the residual relative to sum|w| x target size, which that weight dominates; the orientation oracle is strict only when every interior-edge weight (cot a + cot b)/2 is "
                ">= 1e-9; when some weight lies in [-1e-9, 1e-9) (e.g. unjittered grid diagonals) only 'no triangle strictly flipped' "
                "is asserted (limit of positive weights); when a weight is < -1e-9 the orientation oracle is skipped and counted",
                "square target: the orientation oracle is applied only when no interior edge joins two border vertices that the code "
@@ -47,6 +67,17 @@ ASSUMPTIONS = ["input disks are oriented manifold triangulations (single border 
                "homeomorphically to the boundary of a convex region is one-to-one iff no dividing edge is mapped into that boundary); "
                "a triangle with all vertices on one side always has such an edge, so every case excluded by the statement is excluded "
                "here too; in the excluded cases only 'no triangle strictly flipped' is asserted (limit of strictly convex targets)",
+               "square target, numerics: a triangle whose three computed positions (interior vertices included) lie within 1e-9 of one side "
+               "line of the square is treated as 'all its vertices on one side' (excluded by the statement; only 'not flipped' is asserted for "
+               "it): on a long strip wrapped around a side the interior vertices approach the side exponentially (1 - y < 1e-16 after ~20 "
+               "steps) and are strictly inside only in exact arithmetic",
+               "call spellings: positional arguments follow the documented order (mesh, boundary_mode, use_cotan, verbose); save_on_corners and "
+               "custom_boundary are keyword-only (kwargs); truthy / falsy flag values of type numpy.bool_ or int (0/1) mean the same as the "
+               "bool; custom_boundary=None means 'not provided' (its documented default); Worker.__call__ runs the worker and returns it "
+               "(examples/parametrization/cotan_embedding.py relies on it)",
+               "attribute-caching pre-steps are run on valid, unchanged geometry; corner_angles, cotangent, face_area, angle_defects, cotan_weights, "
+               "vertex_normals and the laplacian must not raise on these non-degenerate triangulated disks (signature pre:<step>:raises), whereas a "
+               "failure of SurfaceConnectionVertices / the frame field is not this property's business: the case is discarded and counted",
                "histories on one mesh object are in the domain (the repo tests themselves run per-corner then per-vertex on the same mesh): a "
                "second TutteEmbedding on an already used mesh must satisfy the same statement for ITS options",
                "custom target: the N x 2 array is indexed like mesh.boundary_vertices (as run() pairs them); the harness supplies a "
@@ -55,6 +86,7 @@ ASSUMPTIONS = ["input disks are oriented manifold triangulations (single border 
                "from TutteEmbedding.run itself, not from an accidental failure further down"]
 
 TOL = 1e-9
+THIN_MIN_ANGLE = 1e-6        # needle triangles: cotangent weights are requested down to this corner angle (radians)
 AREA_TOL = 1e-13
 _FROZEN = False
 
@@ -142,6 +174,77 @@ def pow2_mesh(which, seed):
     return V, [list(map(int, f)) for f in F], what
 
 
+def corner_angle_range(V, F):
+    """(smallest, largest) corner angle in radians over all triangles, via atan2 (accurate for angles near 0 and pi)"""
+    A = np.asarray(V, dtype=float)
+    Fa = np.asarray(F, dtype=int).reshape(-1, 3)
+    mn, mx = math.pi, 0.0
+    for i in range(3):
+        o, p, q = A[Fa[:, i]], A[Fa[:, (i + 1) % 3]], A[Fa[:, (i + 2) % 3]]
+        u, w = p - o, q - o
+        ang = np.arctan2(np.linalg.norm(np.cross(u, w), axis=1), (u * w).sum(axis=1))
+        mn, mx = min(mn, float(ang.min())), max(mx, float(ang.max()))
+    return mn, mx
+
+
+THIN_GAPS = [3e-4, 1e-4, 3e-5, 1e-5, 3e-6]
+
+
+def thin_delaunay(n, seed, gap, npairs, rotate):
+    """planar Delaunay triangulation (=> non-negative cotangent weights on interior edges) of n jittered-grid points (spacing ~1) plus
+    npairs extra points, each at distance `gap` (random direction) from one of them: needle triangles with a corner angle of about gap
+    radians, far from degenerate in double precision (relative edge length >= 1e-6). Close pairs lie in the interior or on the border.
+    rotate: the plane is moved by a rigid motion of space. Returns (V, F) or None."""
+    from scipy.spatial import Delaunay
+    rnd = np.random.RandomState(seed)
+    k = int(math.ceil(math.sqrt(n))) + 1
+    cells = [(i, j) for i in range(k) for j in range(k)]
+    rnd.shuffle(cells)
+    P = [[i + 0.5 + rnd.uniform(-0.3, 0.3), j + 0.5 + rnd.uniform(-0.3, 0.3)] for (i, j) in cells[:n]]
+    # prefer points away from the hull of the point grid (interior close pairs), sometimes any point
+    inner = [t for t, (i, j) in enumerate(cells[:n]) if 0 < i < k - 1 and 0 < j < k - 1]
+    for _ in range(npairs):
+        pool = inner if (inner and rnd.randint(4) != 0) else list(range(n))
+        t = pool[rnd.randint(len(pool))]
+        a = rnd.uniform(0, 2 * math.pi)
+        P.append([P[t][0] + gap * math.cos(a), P[t][1] + gap * math.sin(a)])
+    P = np.array(P)
+    F = []
+    for t in Delaunay(P).simplices:
+        a, b, c = (P[int(x)] for x in t)
+        ar = (b[0] - a[0]) * (c[1] - a[1]) - (b[1] - a[1]) * (c[0] - a[0])
+        if abs(ar) > 1e-9:
+            F.append([int(t[0]), int(t[1]), int(t[2])] if ar > 0 else [int(t[0]), int(t[2]), int(t[1])])
+    # peel flat triangles off the convex hull (corner > 150 deg opposite a border edge): cotangent weights are only requested when no
+    # corner exceeds 170 deg, and the hull of a jittered grid is full of such slivers. Interior edges keep both their Delaunay triangles.
+    while True:
+        cnt = {}
+        for f in F:
+            for i in range(3):
+                cnt[key(f[i], f[(i + 1) % 3])] = cnt.get(key(f[i], f[(i + 1) % 3]), 0) + 1
+        bverts = set(v for e, c in cnt.items() if c == 1 for v in e)
+        drop = None
+        for t, f in enumerate(F):
+            for i in range(3):
+                c, a, b = f[i], f[(i + 1) % 3], f[(i + 2) % 3]
+                if cnt[key(a, b)] == 1 and c not in bverts:
+                    u, w = P[a] - P[c], P[b] - P[c]
+                    if math.atan2(abs(u[0] * w[1] - u[1] * w[0]), float(np.dot(u, w))) > math.radians(150):
+                        drop = t
+            if drop is not None:
+                break
+        if drop is None or len(F) <= 2:
+            break
+        F = F[:drop] + F[drop + 1:]
+    r = SurfRef(len(P), F)
+    if len(set(v for f in F for v in f)) != len(P) or r.validate() is not None or not _is_disk(r):
+        return None
+    V = [[float(p[0]), float(p[1]), 0.0] for p in P]
+    if rotate:
+        V = G.rigid(V, seed + 1)
+    return V, F
+
+
 @st.composite
 def disk_mesh(draw):
     src = draw(st.sampled_from(["delaunay", "wellshaped", "delaunay", "anygeom", "delaunay", "wellshaped", "delaunay"]))
@@ -149,6 +252,17 @@ def disk_mesh(draw):
     if r % 40 == 5:
         V, F, what = pow2_mesh((r // 40) % 8, r // 320)
         return {"V": V, "F": F, "tags": ["src=pow2", "base=pow2:" + what]}
+    if r % 8 == 3:
+        # needle triangles: close pairs of points in a planar Delaunay triangulation
+        q = r // 8
+        gap = THIN_GAPS[q % len(THIN_GAPS)]
+        n = [8, 14, 25, 40, 25, 14, 80, 40][(q // 5) % 8]
+        res = thin_delaunay(n, q // 40, gap, 1 + (q // 40) % 3, (q // 120) % 3 == 0)
+        if res is not None:
+            V, F = res
+            if (q // 360) % 2:
+                V, F, _ = G.relabel(V, F, q // 720, reverse=bool((q // 720) % 2))
+            return {"V": V, "F": [list(map(int, f)) for f in F], "tags": ["src=thin", "base=thin-delaunay", f"thin-gap={gap:g}"]}
     if src == "delaunay":
         size = draw(st.sampled_from([40, 25, 40, 120, 12, 40, 25, 40, 120, 400]))
         s = draw(G.delaunay_disks(max_pts=size, ear_removals=3))
@@ -170,6 +284,27 @@ def options(k, prefix=""):
             prefix + "bm_arg": ["circle", "square"][(k // 6) % 2], prefix + "verbose": (k // 12) % 8 == 7}
 
 
+# how a caller spells the constructor call: the documented signature is
+#   TutteEmbedding(mesh, boundary_mode="circle", use_cotan=False, verbose=False, **kwargs)   kwargs: save_on_corners=True, custom_boundary=None
+FORMS = ["kw",          # TutteEmbedding(mesh, boundary_mode=.., use_cotan=.., verbose=.., save_on_corners=..)
+         "pos-mode",    # TutteEmbedding(mesh, mode, use_cotan=.., verbose=.., ...)           (examples/parametrization/tutte.py)
+         "pos-cotan",   # TutteEmbedding(mesh, mode, use_cotan, verbose=.., ...)
+         "pos-all",     # TutteEmbedding(mesh, mode, use_cotan, verbose, save_on_corners=..)
+         "minimal",     # only the arguments that differ from their documented default, by keyword
+         "mesh-kw"]     # everything by keyword, the mesh included
+FLAG_KINDS = ["bool", "numpy.bool_", "bool", "int"]
+
+
+def spelling(k):
+    """form of the argument list x type of the flags x optional custom_boundary passed explicitly as None x run() or worker()"""
+    return {"form": FORMS[k % 6], "flag": FLAG_KINDS[(k // 6) % 4], "none_cb": (k // 24) % 3 == 0, "invoke": ["run", "call"][(k // 72) % 2]}
+
+
+# library calls that cache attributes on the mesh object (evaluated on the mesh BEFORE an embedding is computed on it)
+PRE_STEPS = ["none", "angles", "cotangent", "angles+cotangent", "face_area", "angle_defects", "cotan_weights", "vertex_normals",
+             "connection", "framefield", "cotan_laplacian", "angles"]
+
+
 def finish_case(draw, s):
     """adds the two configurations, the history step, input scale and the custom polygon to a generated disk"""
     case = {"V": s["V"], "F": s["F"], "tags": list(s["tags"])}
@@ -179,17 +314,28 @@ def finish_case(draw, s):
     case.update(options(k2, "second_"))
     case["second_corners"] = (k2 // 100) % 2 == 0
     case["second_on"] = ["vertex-mesh", "corner-mesh"][(k2 // 200) % 2]
-    case["second_pre"] = ["cotangent", "none", "angles", "cotan_laplacian"][(k2 // 400) % 4]
+    k3 = draw(st.integers(0, 2 ** 20))
+    case["spell"] = spelling(k3)
+    case["second_spell"] = spelling(k3 // 144)
+    k4 = draw(st.integers(0, 2 ** 20))
+    case["first_pre"] = PRE_STEPS[(k4 // 2) % len(PRE_STEPS)] if k4 % 2 else "none"
+    case["second_pre"] = PRE_STEPS[(k4 // 24) % len(PRE_STEPS)]
     # third stage: drop every object, collect garbage, embed a RELABELLED mesh with the same element counts (1 or 2 times)
     case["recycle"] = 0 if len(s["V"]) > 1000 else [0, 1, 2, 1][(k2 // 1600) % 4]
     case["recycle_seed"] = k2 % 9973
     case["recycle_copy"] = (k2 // 12800) % 2 == 1
     case["lazy_flat"] = (k2 // 25600) % 2 == 1
-    if G.min_angle_deg(s["V"], s["F"]) < 5.0 or G.max_angle_deg(s["V"], s["F"]) > 170.0:
+    amin, amax = corner_angle_range(s["V"], s["F"]) if all(len(f) == 3 for f in s["F"]) else (0.0, math.pi)
+    thin_ok = "src=thin" in s["tags"] and amin >= THIN_MIN_ANGLE
+    if (amin < math.radians(5.0) and not thin_ok) or amax > math.radians(170.0):
         if case["cotan"] or case["second_cotan"]:
             case["tags"].append("forced-uniform")
         case["cotan"] = case["second_cotan"] = False
-        case["second_pre"] = "none"          # cotangents / angles are not defined on (near-)degenerate triangles
+        case["first_pre"] = case["second_pre"] = "none"          # cotangents / angles are not defined on (near-)degenerate triangles
+    if case["first_pre"] == "framefield" and len(s["F"]) > 60:
+        case["first_pre"] = "connection"
+    if case["second_pre"] == "framefield" and len(s["F"]) > 60:
+        case["second_pre"] = "connection"
     sc = [1.0, 1e-4, 1.0, 1e4, 1e-6, 1e6, 1e-8, 1.0][(k1 // 400) % 8]
     if sc != 1.0:
         case["V"] = (np.array(s["V"], dtype=float) * sc).tolist()
@@ -287,7 +433,8 @@ def reject_case(draw):
         V, F = insert_isolated(s["V"], s["F"], where)
         s = {"V": V, "F": F, "tags": list(s["tags"]) + ["isolated-vertices=" + str(len(where))]}
     return {"V": s["V"], "F": [list(map(int, f)) for f in s["F"]], "tags": list(s["tags"]), "mode": ["square", "custom", "circle"][k % 3],
-            "cotan": (k // 3) % 2 == 0, "corners": (k // 6) % 2 == 0, "bm_arg": ["circle", "square"][(k // 12) % 2]}
+            "cotan": (k // 3) % 2 == 0, "corners": (k // 6) % 2 == 0, "bm_arg": ["circle", "square"][(k // 12) % 2],
+            "spell": spelling(k // 360)}
 
 
 # ============================================================================================ helpers
@@ -370,15 +517,50 @@ def custom_array(case, loop, bnd):
 
 def config(case, prefix=""):
     return {"mode": case[prefix + "mode"], "cotan": bool(case[prefix + "cotan"]), "bm_arg": case.get(prefix + "bm_arg", "circle"),
-            "verbose": bool(case.get(prefix + "verbose", False))}
+            "verbose": bool(case.get(prefix + "verbose", False)), "spell": case.get(prefix + "spell")}
+
+
+def _flag(x, kind):
+    return bool(x) if kind == "bool" else np.bool_(bool(x)) if kind == "numpy.bool_" else int(bool(x))
+
+
+def spelled_call(mesh, bm, cotan, verbose, corners, custom, cb, sp):
+    """(args, kwargs) of the constructor call for one spelling (documented order: mesh, boundary_mode, use_cotan, verbose; keyword
+    arguments save_on_corners (default True) and custom_boundary (default None))"""
+    kind = sp.get("flag", "bool")
+    cotan, verbose, corners = _flag(cotan, kind), _flag(verbose, kind), _flag(corners, kind)
+    form = sp.get("form", "kw")
+    extra = {"save_on_corners": corners}
+    if custom:
+        extra["custom_boundary"] = cb
+    elif sp.get("none_cb") and form != "minimal":
+        extra["custom_boundary"] = None           # the documented default, handed over explicitly (pass-through wrappers)
+    if form == "pos-mode":
+        return (mesh, bm), dict(use_cotan=cotan, verbose=verbose, **extra)
+    if form == "pos-cotan":
+        return (mesh, bm, cotan), dict(verbose=verbose, **extra)
+    if form == "pos-all":
+        return (mesh, bm, cotan, verbose), extra
+    if form == "mesh-kw":
+        return (), dict(save_on_corners=corners, verbose=verbose, use_cotan=cotan, boundary_mode=bm, mesh=mesh,
+                        **{k: v for k, v in extra.items() if k != "save_on_corners"})
+    if form == "minimal":
+        kw = {}
+        if bm != "circle": kw["boundary_mode"] = bm
+        if cotan: kw["use_cotan"] = cotan
+        if verbose: kw["verbose"] = verbose
+        if not corners: kw["save_on_corners"] = corners
+        if custom: kw["custom_boundary"] = cb
+        return (mesh,), kw
+    return (mesh,), dict(boundary_mode=bm, use_cotan=cotan, verbose=verbose, **extra)
 
 
 def make(case, cfg, m, corners, loop, ctx, reuse_cb=None):
     """construct the worker (not run). returns (worker, expected custom positions or None, custom array or None)"""
     from mouette.processing.parametrization import TutteEmbedding
-    kw = dict(use_cotan=bool(cfg["cotan"]), verbose=bool(cfg.get("verbose", False)), save_on_corners=bool(corners))
     pos = cb = None
-    if cfg["mode"] == "custom":
+    custom = cfg["mode"] == "custom"
+    if custom:
         bnd = ints(m.boundary_vertices)
         if loop is None:
             # rejection cases: any N x 2 array of the right length
@@ -391,19 +573,68 @@ def make(case, cfg, m, corners, loop, ctx, reuse_cb=None):
             if reuse_cb is not None and reuse_cb.shape == cb.shape and reuse_cb.dtype == cb.dtype:
                 reuse_cb[:] = cb                 # the SAME argument object as in an earlier call, new content
                 cb = reuse_cb
-        kw["custom_boundary"] = cb
-        kw["boundary_mode"] = cfg.get("bm_arg", "circle")
-    else:
-        kw["boundary_mode"] = cfg["mode"]
-    return TutteEmbedding(m, **kw), pos, cb
+    bm = cfg.get("bm_arg", "circle") if custom else cfg["mode"]
+    sp = cfg.get("spell") or {}
+    args, kw = spelled_call(m, bm, cfg["cotan"], cfg.get("verbose", False), corners, custom, cb, sp)
+    ctx.label("spell:form=" + sp.get("form", "kw"), "spell:flags=" + sp.get("flag", "bool"), "spell:invoke=" + sp.get("invoke", "run"))
+    if "custom_boundary" in kw and kw["custom_boundary"] is None:
+        ctx.label("spell:custom_boundary=None")
+    if len(args) >= 3:
+        ctx.label("spell:positional-use_cotan=" + str(bool(cfg["cotan"])))
+    # every spelling is a valid call of the documented signature: the constructor must accept it
+    ok, t = ctx.call("construct[" + sp.get("form", "kw") + "]", TutteEmbedding, *args, **kw)
+    return (t if ok else None), pos, cb
 
 
-def run_quiet(ctx, t, verbose):
+def run_quiet(ctx, t, verbose, invoke="run"):
+    """t.run(), or t() - Worker.__call__ runs the worker and hands it back (examples/parametrization/cotan_embedding.py relies on it)"""
+    def go():
+        if invoke != "call":
+            return t.run()
+        r = t()
+        ctx.check(r is t, "call:returns-worker", f"TutteEmbedding(...)() returned {type(r).__name__} instead of the worker itself")
+        return r
     if not verbose:
-        return ctx.call("run", t.run)
+        return ctx.call("run", go)
     import io, contextlib
     with contextlib.redirect_stdout(io.StringIO()), contextlib.redirect_stderr(io.StringIO()):
-        return ctx.call("run", t.run)
+        return ctx.call("run", go)
+
+
+def apply_pre(pre, m, ctx):
+    """evaluates other library functionality on the mesh first; it leaves persistent attributes ('angles', 'cotan', 'area', 'normals',
+    'cotan_weight', 'angleDefect' ...) on the mesh object. The geometry is not changed afterwards, so every cached value is up to date.
+    True: go on; False: a failure was reported; None: the pre-step itself could not be evaluated on this mesh (case discarded)."""
+    import mouette as M
+    if pre == "none":
+        return True
+    simple = {"angles": [M.attributes.corner_angles], "cotangent": [M.attributes.cotangent],
+              "angles+cotangent": [M.attributes.corner_angles, M.attributes.cotangent], "face_area": [M.attributes.face_area],
+              "angle_defects": [M.attributes.angle_defects], "cotan_weights": [M.attributes.cotan_weights],
+              "vertex_normals": [M.attributes.vertex_normals], "cotan_laplacian": [lambda mm: M.operators.laplacian(mm, cotan=True)]}
+    if pre in simple:
+        for f in simple[pre]:
+            ok, _ = ctx.call("pre:" + pre, f, m)
+            if not ok:
+                return False
+        return True
+    # a connection / a frame field: their own success on every disk is not part of this property
+    import io, contextlib
+    try:
+        with contextlib.redirect_stdout(io.StringIO()), contextlib.redirect_stderr(io.StringIO()):
+            if pre == "connection":
+                M.processing.SurfaceConnectionVertices(m)
+            elif pre == "framefield":
+                M.framefield.SurfaceFrameField(m, "vertices", verbose=False).run()
+            else:
+                raise AssertionError("unknown pre-step " + pre)
+    except (Violation, Inconclusive, HarnessError, AssertionError):
+        raise
+    except Exception:
+        ctx.label("pre-step-raised:" + pre)
+        ctx.discard("pre-step-raised:" + pre)
+        return None
+    return True
 
 
 def read_uvs(t, m, ref, corners, ctx, tag, other_had=False):
@@ -475,7 +706,10 @@ def expect_rejected(case, ref, corners, ctx, tag):
     if t is None:
         return
     try:
-        t.run()
+        if (config(case).get("spell") or {}).get("invoke") == "call":
+            t()
+        else:
+            t.run()
     except (Violation, Inconclusive, HarnessError):
         raise
     except Exception as e:
@@ -561,9 +795,24 @@ def fn_embed(case, ctx):
     meshes = {}
     workers = {}
     lazy_first = False
+    first_pre = case.get("first_pre", "none")
+    amin, amax = corner_angle_range(V, F)
+    thin = ("<=1e-5" if amin <= 1e-5 else "<=1e-4" if amin <= 1e-4 else "<=1e-3" if amin <= 1e-3 else "<5deg" if amin < math.radians(5) else ">=5deg")
+    ctx.label("min-corner-angle:" + thin, "first:pre=" + first_pre)
+    for tg in case["tags"]:
+        if tg.startswith("thin-gap="):
+            ctx.label(tg)
+    if cfg["cotan"] or case["second_cotan"]:
+        ctx.label("cotan-requested:min-corner-angle:" + thin)
     for corners in (False, True):
         tag = "per-corner" if corners else "per-vertex"
         m = surface_from(V, F)
+        r = apply_pre(first_pre, m, ctx)
+        if not r:
+            return
+        if cfg["cotan"] and not corners:
+            ctx.label("first:cotan-with-cached:" + "+".join([a for a in ("angles", "cotan") if m.face_corners.has_attribute(a)] or ["nothing"])
+                      + ":min-corner-angle:" + thin)
         lazy = bool(case.get("lazy_flat")) and corners == (case["second_on"] == "corner-mesh") and bool(case["second_corners"]) != corners
         UV = run_once(case, cfg, m, corners, geo, ctx, tag, other_had=False, flat_now=not lazy)
         if UV is None:
@@ -581,7 +830,6 @@ def fn_embed(case, ctx):
         return
 
     # ------------------------------------------------------------------ second configuration on an ALREADY USED mesh object
-    import mouette as M
     cfg2 = config(case, "second_")
     on_corner_mesh = case["second_on"] == "corner-mesh"
     m = meshes[on_corner_mesh]
@@ -589,16 +837,13 @@ def fn_embed(case, ctx):
     c2 = bool(case["second_corners"])
     ctx.label("second:pre=" + pre, f"second:{'cotan' if cfg['cotan'] else 'uniform'}->{'cotan' if cfg2['cotan'] else 'uniform'}",
               f"second:{cfg['mode']}->{cfg2['mode']}", "second:storage=" + ("same" if c2 == on_corner_mesh else "other"))
-    if pre == "cotangent":
-        ok, _ = ctx.call("pre:cotangent", M.attributes.cotangent, m)
-    elif pre == "angles":
-        ok, _ = ctx.call("pre:corner_angles", M.attributes.corner_angles, m)
-    elif pre == "cotan_laplacian":
-        ok, _ = ctx.call("pre:laplacian", M.operators.laplacian, m, cotan=True)
-    else:
-        ok = True
-    if not ok:
+    r = apply_pre(pre, m, ctx)
+    if not r:
         return
+    # which cached corner attributes the cotangent weights of this run can come from
+    if cfg2["cotan"]:
+        ctx.label("second:cotan-with-cached:" + "+".join([a for a in ("angles", "cotan") if m.face_corners.has_attribute(a)] or ["nothing"])
+                  + ":min-corner-angle:" + thin)
     other = m.vertices if c2 else m.face_corners
     tag = (f"second run ({cfg2['mode']}/{'cotan' if cfg2['cotan'] else 'uniform'}/{'corners' if c2 else 'vertices'}) on the mesh object "
            f"already embedded with {cfg['mode']}/{'cotan' if cfg['cotan'] else 'uniform'}/{'corners' if on_corner_mesh else 'vertices'}, pre-step {pre}")
@@ -685,7 +930,7 @@ def run_once(case, cfg, m, corners, geo, ctx, tag, other_had, reuse_cb=None, fla
     if t is None:
         return None
     snap = None if cb is None else cb.copy()
-    ok, _ = run_quiet(ctx, t, cfg.get("verbose"))
+    ok, _ = run_quiet(ctx, t, cfg.get("verbose"), (cfg.get("spell") or {}).get("invoke", "run"))
     if not ok:
         return None
     if cb is not None:
@@ -799,6 +1044,23 @@ def check_embedding(cfg, UV, geo, ctx, tag):
     ctx.label("orientation:" + level, f"orientation:{level}:{'cotan' if cotan else 'uniform'}:{mode}")
     A = tri_areas(UV, F) * sgn
     k = int(np.argmin(A))
+    if level == "strict" and mode == "square":
+        # "whenever no triangle has all its vertices on one side of the square": a triangle whose three computed positions (interior
+        # vertices included) lie within 1e-9 of one side line is outside the strict statement. Long strips wrapped around a side do this:
+        # the interior vertices approach the side exponentially fast (1 - y < 1e-16 after ~20 steps), strictly inside only in exact arithmetic.
+        Fa = np.asarray(F, dtype=int)
+        T = UV[Fa]                                                # nF x 3 x 2
+        flat = np.zeros(len(Fa), dtype=bool)
+        for ax, val in ((1, 0.0), (0, 1.0), (1, 1.0), (0, 0.0)):
+            flat |= np.all(np.abs(T[:, :, ax] - val) <= 1e-9, axis=1)
+        if np.any(flat):
+            ctx.label("square:triangles-numerically-on-one-side")
+            Astrict = np.where(flat, np.inf, A)
+            k = int(np.argmin(Astrict))
+            ctx.check(bool(np.all(A[flat] >= -1e-9 * scale ** 2)), "orientation:weak",
+                      f"{tag}: square: a triangle lying (within 1e-9) on one side of the square is flipped: min signed area {float(np.min(A[flat])):.3e}")
+            if not np.isfinite(Astrict[k]):
+                level = "none"
     if level == "strict":
         ctx.check(A[k] > AREA_TOL * scale ** 2, "orientation",
                   f"{tag}: {mode}/{'cotan' if cotan else 'uniform'}: triangle {k} {F[k]} has signed area {A[k] * sgn:.3e} in the embedding while the "
@@ -832,6 +1094,28 @@ def self_test():
     Vl, Fl = large_mesh("delaunay", 36, 5, True)
     rl = SurfRef(len(Vl), Fl)
     assert rl.validate() is None and _is_disk(rl) and len(Vl) - len(rl.border_loops()[0]) > 1000
+    # needle generator: disk, thin corner of about the requested gap, no corner above 170 deg in the typical case
+    Vt, Ft = thin_delaunay(25, 3, 1e-5, 1, False)
+    rt = SurfRef(len(Vt), Ft)
+    amin, amax = corner_angle_range(Vt, Ft)
+    assert rt.validate() is None and _is_disk(rt) and len(Vt) == 26 and 1e-7 < amin < 1e-4 and amax < math.pi, (amin, amax)
+    Wt = cot_weights(Vt, rt)
+    assert min(Wt.values()) > -1e-9 and max(Wt.values()) > 1e3
+    a0, a1 = corner_angle_range([[0, 0, 0], [1, 0, 0], [0, 1, 0]], [[0, 1, 2]])
+    assert abs(a0 - math.pi / 4) < 1e-15 and abs(a1 - math.pi / 2) < 1e-15
+    # spellings: every form carries the same options
+    class _M: pass
+    mm = _M()
+    for form in FORMS:
+        for kind in ("bool", "numpy.bool_", "int"):
+            a, kw = spelled_call(mm, "square", True, False, False, False, None, {"form": form, "flag": kind, "none_cb": True})
+            names = ["mesh", "boundary_mode", "use_cotan", "verbose"]
+            got = dict(zip(names, a)); got.update(kw)
+            assert got["mesh"] is mm and got["boundary_mode"] == "square" and got["use_cotan"] == 1 and not got.get("verbose", False)
+            assert not got["save_on_corners"] and got.get("custom_boundary", None) is None
+            assert type(got["use_cotan"]) is {"bool": bool, "numpy.bool_": np.bool_, "int": int}[kind]
+    a, kw = spelled_call(mm, "circle", False, False, True, False, None, {"form": "minimal"})
+    assert a == (mm,) and kw == {}
     P = convex_polygon(9, 3, 1.0, False, [0, 0])
     E = np.roll(np.array(P), -1, axis=0) - np.array(P)
     assert np.all(E[:, 0] * np.roll(E[:, 1], -1) - E[:, 1] * np.roll(E[:, 0], -1) > 0)
